@@ -257,11 +257,11 @@ def run(facts, rep, tier):
             return mr.some(("ctor", "Any", []))
         if s_ == "!":
             return mr.some(("ctor", "Never", []))
-        if isinstance(s_, str) and re.fullmatch(r"\d+(\.\d+){0,2}(-[0-9A-Za-z.-]+)?", s_):
+        if isinstance(s_, str) and re.fullmatch(r"\d+\.\d+\.\d+(-[0-9A-Za-z.-]+)?", s_):
             return mr.some(("ctor", "Version", [s_]))
         return mr.NONE
     NAMES = ["serde", "serde_json", "a-b", "k8s", "uuid1", "x_y-2"]
-    VERS = [("*", "Any"), ("!", "Never"), ("1", "Version"), ("1.2.3", "Version"), ("0.8.22", "Version"), ("1.0.0-beta.1", "Version")]
+    VERS = [("*", "Any"), ("!", "Never"), ("1.0.0", "Version"), ("1.2.3", "Version"), ("0.8.22", "Version"), ("1.0.0-beta.1", "Version")]
     RENAMES = [None, "x", "my-uuid", "u_1"]
     fs = [h for h in cli.user_fns() if "CrateSpec" in h["fn"] and h["fn"].endswith("::convert")]
     if rep.floor("C15.D3", "CLI crate specifier parser", len(fs), 1):
